@@ -841,6 +841,10 @@ MD_GRAFTS = {
     "md_missing_type": {"name": "x"},
     "md_bad_inject_field": {"metadata_type": "inject_code", "name": "blk", "bogus_field": ["int x;"]},
     "md_collection_extra_key": {"metadata_type": "add_atlas_event_collection_info", "name": "MyJets", "include_files": ["a.h"], "container_type": "xAOD::JetContainer", "element_type": "xAOD::Jet", "contains_collection": True, "what_is_this": 1},
+    # a key of ANOTHER backend's collection declaration is as unexpected as any unknown key
+    "md_collection_foreign_key": {"metadata_type": "add_atlas_event_collection_info", "name": "MyJets", "include_files": ["a.h"], "container_type": "xAOD::JetContainer", "element_type": "xAOD::Jet", "contains_collection": True, "element_pointer": False},
+    "md_cmsaod_collection_foreign_key": {"metadata_type": "add_cms_aod_event_collection_info", "name": "MyMuons", "include_files": ["a.h"], "container_type": "reco::MuonCollection", "element_type": "reco::Muon", "contains_collection": True, "element_pointer": False, "link_libraries": ["MuonLib"]},
+    "md_cmsminiaod_collection_foreign_key": {"metadata_type": "add_cms_miniaod_event_collection_info", "name": "MyMuons", "include_files": ["a.h"], "container_type": "pat::MuonCollection", "element_type": "pat::Muon", "contains_collection": True, "element_pointer": False, "link_libraries": ["MuonLib"]},
     "md_collection_elem_mismatch": {"metadata_type": "add_atlas_event_collection_info", "name": "MyJets", "include_files": ["a.h"], "container_type": "xAOD::JetContainer", "contains_collection": True},
 }
 ALL_GRAFTS = list(SCALAR_GRAFTS) + list(SCALAR_GRAFTS_OBJ) + list(COLL_GRAFTS) + list(SEQ_GRAFTS) + list(PRED_GRAFTS) + ROW_GRAFTS + list(MD_GRAFTS)
